@@ -32,7 +32,8 @@ QUICK_RUNS = 8000
 THOROUGH_RUNS = 500_000
 EXPECT_PROBES = ["replacement", "expiry", "bounds_change", "same_priority_actors", "exclusion_bigger_than_inclusion",
                  "actor_variant", "expiry_via_timer", "two_component_groups", "identical_resend", "non_default_max_age",
-                 "bounds_update_checked_at_actor_level", "inverted_bounds"]
+                 "bounds_update_checked_at_actor_level", "inverted_bounds",
+                 "status_query_between_change_and_recalculation"]
 
 IDS = frozenset({8, 18})
 IDS2 = frozenset({28, 38})
@@ -68,6 +69,7 @@ def scenario_object(sim: Sim) -> None:
     now = 100.0
     lives: list[dict[tuple[int, str], dict[str, Any]]] = [{} for _ in groups]
     ever = [False] * ngroups
+    handed: dict[int, float | None] = {}      # group -> last target calculate_target_power() actually returned (not None)
     nops = ch.int_between("nops", 8, sim.scale(40, 90))
     for step in range(nops):
         g = ch.draw("group", ngroups)
@@ -88,8 +90,10 @@ def scenario_object(sim: Sim) -> None:
             ever[g] = True
             sim.ev("propose", a["name"], g, p["pref"], p["lower"], p["upper"])
             sim.note(f"group {g}: propose {pm.pstr(p)} at t={now}")
-            m.calculate_target_power(ids, pm.mk_proposal(p, ids), pm.mk_sysbounds(sb, sim.wall()),
-                                     must_return_power=bool(ch.draw("must", 2)))
+            ret = m.calculate_target_power(ids, pm.mk_proposal(p, ids), pm.mk_sysbounds(sb, sim.wall()),
+                                           must_return_power=bool(ch.draw("must", 2)))
+            if ret is not None:
+                handed[g] = pm.watts(ret)
         elif op == 1:
             dt = ch.choice("dt", [0.5, 1.0, 10.0, 29.0, 30.0, 59.0, 60.0, 60.5, 61.0, 125.0]) * (max_age / 60.0)
             now += dt
@@ -106,6 +110,10 @@ def scenario_object(sim: Sim) -> None:
                     sim.nontrivial = True
             sim.ev("drop_old", "", ngone)
             sim.note(f"drop_old_proposals({now}) -> {ngone} expired")
+            if ever[g] and ch.chance("status_query_before_recalculation", 0.3):
+                # somebody asks for a report between the state change and the recalculation (must be a pure read)
+                sim.probe("status_query_between_change_and_recalculation")
+                m.get_status(ids, ch.choice("status_prio", [0, 2, 5, 20]), pm.mk_sysbounds(sb, sim.wall()))
         elif op == 3:
             sb = sbs[g] = pm.gen_sysbounds(ch)
             if sb["lo"] is not None and (sb["xlo"] < sb["lo"] or sb["xhi"] > sb["hi"]):
@@ -114,21 +122,32 @@ def scenario_object(sim: Sim) -> None:
             sim.nontrivial = True
             sim.ev("bounds", g, repr(sorted(sb.items())))
             sim.note(f"group {g}: bounds incl [{sb['lo']},{sb['hi']}] excl ({sb['xlo']},{sb['xhi']})")
+            if ever[g] and ch.chance("status_query_before_recalculation", 0.3):
+                sim.probe("status_query_between_change_and_recalculation")
+                m.get_status(ids, ch.choice("status_prio", [0, 2, 5, 20]), pm.mk_sysbounds(sb, sim.wall()))
         # ---- observe + oracle after every operation, for every group (expiry acts on all of them)
         for gg in range(ngroups):
             if ever[gg]:
-                _check_object(sim, m, groups[gg], lives[gg], sbs[gg], step, gg, max_age)
+                _check_object(sim, m, groups[gg], lives[gg], sbs[gg], step, gg, max_age, handed)
 
 
 def _check_object(sim: Sim, m: Any, ids: frozenset[int], live: dict[tuple[int, str], dict[str, Any]],
-                  sb: dict[str, Any], step: int, g: int, max_age: float) -> None:
+                  sb: dict[str, Any], step: int, g: int, max_age: float, handed: dict[int, float | None]) -> None:
     ch = sim.ch
     sysb = pm.mk_sysbounds(sb, sim.wall())
     # first the way the actor's bounds tracker asks ("tell me only if it changed"), then read the current target;
     # afterwards the explicit must_return_power=True form - all three must tell the same story
     changed = pm.watts(m.calculate_target_power(ids, None, sysb))
     current = pm.watts(m.get_target_power(ids))
+    if changed is not None:
+        handed[g] = changed
     got = pm.watts(m.calculate_target_power(ids, None, sysb, must_return_power=True))
+    if got is not None and g in handed and handed[g] != got:
+        # "None" means "unchanged": then the last value that was actually handed out must be the target
+        sim.violation("history_free", {"order": "unchanged_answer_but_the_last_value_handed_out_differs"},
+                      f"step {step} group {g}: recalculating without a new proposal answered None (= unchanged), the last "
+                      f"target handed out was {handed[g]} W, but the target for the live set and bounds {sb} is {got} W")
+    handed[g] = got
     if got is not None and (current != got or (changed is not None and changed != got)):
         sim.violation("history_free", {"order": "recalculation_without_proposal"},
                       f"step {step} group {g}: recalculating without a new proposal answered {changed} (None = unchanged) "
@@ -200,8 +219,18 @@ def scenario_actor(sim: Sim) -> None:
         await asyncio.sleep(0.01)
         sim.loop.idle_hooks.append(on_idle)
         for _ in range(nops):
-            op = ch.weighted("op", [6, 3, 2])
-            if op == 0:
+            op = ch.weighted("op", [6, 3, 2, 2])
+            if op == 3:
+                # the pool streams its bounds periodically: a new sample with the same values (only the timestamp
+                # differs) is a bounds update like any other
+                sbr = st["sb_since"][-1] if st["sb_since"] else st["sb_idle"]
+                sim.probe("bounds_republished_unchanged")
+                st["sb_since"].append(sbr)
+                h.publish_bounds(0, sbr)
+                await asyncio.sleep(0.001)
+                if st["sent"] and h.requests and st["check_after"] is None:
+                    _check_request(sim, h, st)
+            elif op == 0:
                 a = actors[ch.draw("actor", len(actors))]
                 live_now = [p for p in st["sent"].values()]
                 p = pm.gen_proposal(ch, a, st["sb_since"][-1] if st["sb_since"] else st["sb_idle"], live_now, sim.loop.time(),
